@@ -158,7 +158,13 @@ EXISTS = [{'t': 'exist', 'kind': 'file', 'path': {'name': 'src.txt'}},
           {'t': 'exist', 'kind': 'dir', 'path': {'rel': '-rel-home', 'name': 'adir'}},
           {'t': 'exist', 'kind': 'path', 'path': {'sym': 'P_HOME'}},
           {'t': 'exist', 'kind': 'path', 'path': {'name': 'adir/x.txt'}},
-          {'t': 'exist', 'kind': 'file', 'path': {'sym': 'P_ADIR', 'suffix': 'x.txt'}}]
+          {'t': 'exist', 'kind': 'file', 'path': {'sym': 'P_ADIR', 'suffix': 'x.txt'}},
+          # PATH is, or goes through, a symbolic link: the argument is the absolute path of PATH as written
+          # (root directory + PATH), not the place the link leads to
+          {'t': 'exist', 'kind': 'file', 'path': {'name': 'lnk.txt'}},
+          {'t': 'exist', 'kind': 'dir', 'path': {'rel': '-rel-home', 'name': 'ldir'}},
+          {'t': 'exist', 'kind': 'path', 'path': {'name': 'ldir/x.txt'}},
+          {'t': 'exist', 'kind': 'path', 'path': {'rel': '-rel-act-home', 'name': 'lnk.txt'}}]
 RESTS = [{'t': 'rest', 'parts': ['the rest  of the "line" \'x\' ( ) ! && -stdin']},
          {'t': 'rest', 'parts': ['with ', r_('S_SP'), ' and ', r_('L_2')], 'lead': '   ', 'trail': '  \t'},
          {'t': 'rest', 'parts': ['x']},
@@ -1045,7 +1051,8 @@ def teardown_worker(ctx):
 
 def _home_files():
     return {'src.txt': HOME_TEXTS['src.txt'], 'in.txt': HOME_TEXTS['in.txt'], 'adir/x.txt': 'x\n',
-            'hprobe': ('symlink', probe.PROBE), 'pyprobe.py': ('symlink', PYPROBE)}
+            'hprobe': ('symlink', probe.PROBE), 'pyprobe.py': ('symlink', PYPROBE),
+            'lnk.txt': ('symlink', 'src.txt'), 'ldir': ('symlink', 'adir')}
 
 
 def _read(path):
